@@ -67,10 +67,12 @@ def to_float(x) -> float:
 def proto(val) -> str:
     if val is None:
         return '_'
+    if val[0] == 'E':
+        return 'E'
     if val[0] == 'i':
         return f'i:{val[1]}'
     if val[0] == 'd':
-        return f'd:{val[1]}:{val[2]}'
+        return f'd:{val[1]}:{val[2]}'           # a 4th element '-' (Decimal negative zero) is not part of the value
     if val[0] == 'S':
         return 'S:' + '.'.join(str(ord(c)) for c in val[1])
     x = val[1]
@@ -97,6 +99,10 @@ def exact_decimal(x: Fr) -> str:
 def lit(val, ver: str, style: int) -> str:
     """XPath source text of an operand.  style 0 = constructor, 1 = literal where one exists"""
     t = val[0]
+    if t == 'E':
+        return '()'
+    if t == 'd' and len(val) == 4:
+        return f"xs:decimal('-{dec_str(0, val[2])}')"      # Decimal('-0.0'): xs:decimal has no negative zero
     if ver == '10':
         if t == 'S':
             assert "'" not in val[1]
@@ -153,6 +159,8 @@ def case_json(case) -> dict:
 def val_of_proto(s: str):
     if s == '_':
         return None
+    if s == 'E':
+        return ('E',)
     t, rest = s.split(':', 1)
     if t == 'i':
         return ('i', int(rest))
@@ -437,6 +445,17 @@ def gen_case(rng, ver=None):
                 p = rng.randint(-3, 3)
             else:
                 p = rng.choice([-30, -6, 5, 9, 17, 26, 30, 400, 2100, -2100, 2500, 5000])
+    if ver != '10':
+        def special(v):
+            r = rng.random()
+            if r < 0.012:
+                return ('E',)
+            if r < 0.03:
+                return ('d', 0, rng.choice([0, 1, 2]), '-')
+            return v
+        a = special(a)
+        if b is not None:
+            b = special(b)
     if ver == '10':
         def fix10(v):
             if v is not None and v[0] == 'i' and abs(v[1]) >= 2**1000:
@@ -446,11 +465,13 @@ def gen_case(rng, ver=None):
             return v
         a, b = fix10(a), fix10(b)
     for v in (a, b):            # literal style only where the literal denotes the same value
-        if v is not None and ((v[0] in 'DF' and not isinstance(v[1], Fr)) or v[0] == 'F'):
+        if v is not None and v[0] != 'E' and ((v[0] in 'DF' and not isinstance(v[1], Fr)) or v[0] == 'F'):
+            style = 0
+        if v is not None and (v[0] == 'E' or (v[0] == 'd' and len(v) == 4)):
             style = 0
         if v is not None and v[0] == 'd' and len(str(abs(v[1]))) > 28:
             style = 0          # unary minus on a literal applies the 28-digit context first
-        if v is not None and ((v[0] == 'i' and v[1] < 0) or (v[0] == 'd' and v[1] < 0) or
+        if v is not None and v[0] != 'E' and ((v[0] == 'i' and v[1] < 0) or (v[0] == 'd' and v[1] < 0) or
                               (v[0] == 'D' and isinstance(v[1], Fr) and v[1] < 0)):
             if op not in BIN:
                 style = 0
@@ -506,6 +527,10 @@ CORPUS = [
     C('20', 'div', ('i', 10**400), D(0.0)), C('20', 'mod', ('i', 10**400), ('d', 3, 0)), C('20', 'add', ('i', 2**1024), D(1.0)),
     C('20', 'mul', ('i', 0), ('i', 5)), C('31', 'mul', D(0.0), ('i', 5)), C('20', 'mul', D(-1.0), ('i', 0)), C('20', 'mul', ('d', 0, 1), ('d', 25, 1)),
     C('10', 'mul', ('i', 0), ('i', 5)), C('10', 'mul', D(-1.0), D(0.0)), C('20', 'mul', F(0.0), F(-3.0)), C('20', 'sub', ('i', 7), ('i', 7)),
+    C('20', 'add', ('E',), ('i', 1)), C('31', 'div', ('d', 25, 1), ('E',)), C('20', 'idiv', ('E',), ('i', 2)), C('20', 'mod', ('E',), ('E',)),
+    C('31', 'rhe', ('E',), p=2), C('20', 'neg', ('E',)), C('30', 'round', ('E',), p=1), C('20', 'mul', ('E',), D(2.0)),
+    C('20', 'div', D(1.0), ('d', 0, 1, '-')), C('20', 'mul', ('d', 0, 0, '-'), D(1.0)), C('20', 'div', F(1.0), ('d', 0, 2, '-')),
+    C('20', 'mod', D(1.0), ('d', 0, 0, '-')), C('20', 'round1', ('d', -4, 1)), C('20', 'mod', ('d', -225, 2), ('d', 75, 2)),
     C('20', 'sub', D(0.0), D(0.0)), C('20', 'mul', D(-0.0), ('i', 5)), C('20', 'mul', ('d', 15, 1), ('i', 2 ** 63 - 1)),
 ]
 
@@ -544,7 +569,7 @@ def judge(run: Run, cj, site: str, impl: str, a: dict, stats: bool, what: str = 
         tags.remove('F06c')
         if stats:
             st.count('F06c-tag-refused')
-    spec_cmp = None if ('idef' in flags or 'ovf' in flags) else spec
+    spec_cmp = None if ('idef' in flags or 'ovf' in flags or 'sterr' in flags) else spec
     if spec_cmp is not None and impl != spec_cmp:
         run.disagree(Disagreement(cj, impl, model, spec, what=what, site=site, tags=tags))
         if tags and impl != model:      # inside a finding region the model must still mirror the code
@@ -575,13 +600,13 @@ def compare(run: Run, cases: list, stats=True) -> None:
             st.count('op:' + case['op'])
             st.count('types:' + types)
             st.count('parser:' + case['v'])
-            st.count('result:' + (impl if impl.startswith(('ERR', 'PATHS')) else impl.split(':')[0] + (':' + impl.split(':')[1] if impl.split(':')[1] in SPECIALS else '')))
+            st.count('result:' + (impl if (impl.startswith(('ERR', 'PATHS', 'SEQ')) or ':' not in impl) else impl.split(':')[0] + (':' + impl.split(':')[1] if impl.split(':')[1] in SPECIALS else '')))
             for f in flags:
                 st.count('flag:' + f)
             if case['op'] in ('idiv', 'mod') and case['b'] and not impl.startswith('ERR'):
                 def sg(v):
-                    x = v[1]
-                    return '?' if (v[0] == 'S' or not isinstance(x, (int, Fr))) else '-' if x < 0 else '+' if x > 0 else '0'
+                    x = v[1] if len(v) > 1 else None
+                    return '?' if (v[0] in 'SE' or not isinstance(x, (int, Fr))) else '-' if x < 0 else '+' if x > 0 else '0'
                 st.count(f"signs:{case['op']}:{sg(case['a'])}{sg(case['b'])}")
         site = f"{case['op']}@{case['v']}:{types}"
         judge(run, cj, site, impl, a, stats)
@@ -609,13 +634,14 @@ def operand_of_raw(raw: str):
     return (t, rest if rest in SPECIALS else Fr(rest))
 
 
-CONTEXTS_20 = ['seq', 'for', 'abs', 'add0', 'rdiv', 'neg', 'fnarg', 'pred']
+CONTEXTS_20 = ['seq', 'for', 'abs', 'add0', 'rdiv', 'neg', 'fnarg', 'pred', 'rdivD', 'mulD']
 CONTEXTS_10 = ['add0', 'rdiv', 'neg', 'floor']
 
 
 def wrap_expr(kind: str, e: str) -> str:
     return {'seq': f'({e}, 1)', 'for': f'for $x in ({e}) return $x', 'abs': f'abs({e})', 'add0': f'({e}) + 0',
-            'rdiv': f'1 div ({e})', 'neg': f'-({e})', 'fnarg': f'round-half-to-even({e}, 1)',
+            'rdiv': f'1 div ({e})', 'rdivD': f"xs:double('1') div ({e})", 'mulD': f"({e}) * xs:double('-1')",
+            'neg': f'-({e})', 'fnarg': f'round-half-to-even({e}, 1)',
             'pred': f'(7, 8)[{e} = {e} or true()]', 'floor': f'floor({e})'}[kind]
 
 
@@ -642,6 +668,7 @@ def compare_contexts(run: Run, wrapped: list) -> None:
             continue
         v = case['v']
         oc = {'abs': C(v, 'abs', r), 'add0': C(v, 'add', r, ('i', 0)), 'rdiv': C(v, 'div', ('i', 1), r),
+              'rdivD': C(v, 'div', ('D', Fr(1)), r), 'mulD': C(v, 'mul', r, ('D', Fr(-1))),
               'neg': C(v, 'neg', r), 'fnarg': C(v, 'rhe', r, p=1), 'floor': C(v, 'floor', r)}.get(kind)
         if oc is not None:
             idx[n] = len(outer_cases)
@@ -656,7 +683,14 @@ def compare_contexts(run: Run, wrapped: list) -> None:
         st.count('context:' + kind)
         inner_tagged = any(f in FINDING_IDS or f in ('idef', 'ovf') for f in a['flags'])
         if a['model'].startswith('ERR'):
+            if kind == 'pred':
+                continue        # an error inside a predicate comparison is reported with another code
             exp = {'model': a['model'], 'spec': a['spec'], 'specI': None, 'flags': list(a['flags']), 'raw': a['raw']}
+        elif a['model'] == 'EMPTY':
+            if kind == 'pred':
+                continue
+            one = 'i:1' if kind == 'seq' else 'EMPTY'      # the empty sequence vanishes from (E, 1) and propagates elsewhere
+            exp = {'model': one, 'spec': one, 'specI': None, 'flags': [], 'raw': ''}
         elif kind == 'seq':
             one = 'N:1/1' if case['v'] == '10' else 'i:1'
             exp = {'model': f"SEQ[{a['model']},{one}]", 'spec': f"SEQ[{a['spec']},{one}]", 'specI': None,
